@@ -21,6 +21,7 @@ HARNESSES = {
     "ieee_abs": (["C21"], "abs >= 0 or NaN; |x| == |-x|"),
     "ieee_le_total_on_non_nan": (["C11", "C12"], "f64 <= total and antisymmetric on non-NaN (smaller_unit)"),
     "vm_le_bytes": (["C09"], "std u16::{to,from}_{le,be}_bytes contracts used by push_u16 / read_u16, all 65536 values"),
+    "ieee_classification": (["C02"], "axiom_f64_classes: is_finite / is_normal / is_subnormal / is_zero / is_infinite / is_nan partition the f64 values as IEEE-754 says"),
     "ieee_integer_guard": (["C08"], "pretty_print integer branch: is_integer && |x| < 2^53 => exact i64 cast"),
 }
 
